@@ -790,6 +790,15 @@ def cases(tier, rng):
                     replies = {p: outcomes[(o + i) % len(outcomes)] for i, p in enumerate(before + during)}
                     for conns in (1, 2, 3) if tier != 'quick' else (2,):
                         yield dict(family='connect', fe=fe, before=before, during=during, connections=conns, replies=replies)
+    # 3b. declared routes that are prefixes of one another, in both declaration orders (each is still owed its own command)
+    nested_sets = (['/n', '/n/a'], ['/n/a', '/n'], ['/n/a/b/c', '/n/a', '/m'], ['/', '/n'], ['/n/x', '/n/y', '/n'])
+    for fe in ('v2', 'legacy'):
+        for before in nested_sets:
+            for o in (0, 1):
+                replies = {p: outcomes[(o * (i + 1)) % len(outcomes)] for i, p in enumerate(before)}
+                for conns in (1, 2, 3) if tier != 'quick' else (2,):
+                    yield dict(family='connect', fe=fe, before=list(before), during=[], connections=conns, replies=replies)
+                    yield dict(family='connect', fe=fe, before=list(before[:-1]), during=[before[-1]], connections=conns, replies=replies)
     # 4. codec round trips
     n_codec = 400 if tier == 'quick' else 40000
     verbs = (('rib', 'register'), ('rib', 'unregister'), ('faces', 'create'), ('strategy-choice', 'set'), ('cs', 'config'))
